@@ -95,6 +95,35 @@ PROPS = {
             dict(test="TestC18Database", kind="rapid", checks={Q: 300, T: 12000}, shards=8),
         ],
     ),
+    "C15": dict(
+        pkg="c15", level="exploration", prebuild="go run ./cmd/genregistry",
+        technique="exhaustive enumeration of the finite domain (all constructors found by go/parser at check time x all entries of gen/metadata.json) with the metadata as oracle",
+        level_text=("The domain is finite and enumerated completely on every run: every exported constructor of the characteristic, service and accessory packages (registry regenerated from /repo's sources before the build) is called "
+                    "under recover and exercised (JSON encoding, typed setter/getter at min and max, container insertion); every characteristic and service of gen/metadata.json is matched against the objects by type id, format, "
+                    "permission set, unit, minimum/maximum/step and default value."),
+        level_note="Trusted: gen/metadata.json as the reference, the UUID minification rule and the property->permission mapping (read->pr, write->pw, cnotify->ev). Constraint keys are read case-sensitively (MinimumValue, MaximumValue, StepValue) as the documented schema spells them. Constructors that take a raw type id (NewInt(typ) ...) are building blocks and are listed as skipped.",
+        rule=("enumeration: one case per constructor (about 230) and per metadata entry (146 + 43). Non-trivial: every constructor case, and metadata entries that carry at least one property, unit, constraint or required characteristic to compare. Distinct by constructor name / UUID."),
+        assumptions=["gen/metadata.json in /repo is the bundled HomeKit metadata the property refers to"],
+        essential_classes=["constructor:characteristic", "constructor:service", "constructor:accessory", "metadata:characteristic", "metadata:service"],
+        exhaustive=True, exhaustive_note="all constructors present in /repo at check time and all metadata entries",
+        jobs=[dict(test="TestC15Catalog", kind="plain")],
+    ),
+    "C12": dict(
+        pkg="c12", level="exploration", prebuild="go run ./cmd/genregistry",
+        technique="property-based testing (rapid) of update sequences with a type/range invariant after every step, over every characteristic constructor; enumerated constructor x hostile-value matrix",
+        level_text=("Generated search: for every characteristic constructor found at check time (round-robin, so each is covered in each run) sequences of 1..12 local and remote updates with JSON-like and Go-native values "
+                    "(numbers of any magnitude, numeric and non-numeric strings incl. NaN/Inf spellings, null, arrays, objects, the same composite twice); after every step the stored value must have the Go kind of the declared format, "
+                    "lie within declared bounds, the typed getter must not panic and the characteristic must JSON-encode. A fixed matrix of 27 hostile values x every constructor x local/remote x twice is enumerated."),
+        level_note="Trusted: the format->kind table in hx.ValueOK. 'Type' is judged by Go kind (any integer kind for integer formats), not by one concrete Go type; the numeric range implied by the format name alone (e.g. 0..255 for uint8 without declared bounds) is not judged.",
+        rule=("rapid sequences over all constructors; values from hx.JSONValue (null, bool, special and random finite floats, special and random strings, arrays, objects, depth<=2) and Go-native numbers for local updates. "
+              "Non-trivial: sequence containing at least one value whose JSON type differs from the format's. Distinct by (constructor, sequence)."),
+        assumptions=["numbers supplied are finite (NaN/Inf only occur as strings)", "typed getters are only called on readable characteristics"],
+        essential_classes=["same-composite-twice", "format:string", "format:float", "format:uint8", "format:bool", "format:tlv8", "format:int32", "write-only"],
+        jobs=[
+            dict(test="TestC12Matrix", kind="plain", shards=4),
+            dict(test="TestC12Prop", kind="rapid", checks={Q: 1500, T: 60000}, shards=12),
+        ],
+    ),
 }
 
 # reasons for properties not claimed yet (kept current while the framework is being built)
